@@ -478,7 +478,11 @@ func solveAll(results []*FuncResult, dir string, sec int, all bool, workers int)
 				if jobs[i].o.Result != nil {
 					continue
 				}
-				jobs[i].o.Result = race(files[i], sec, all)
+				t := sec
+				if jobs[i].o.Class == "lemma" && t < 40 {
+					t = 40 // string lemmas are proved once per run, in isolation; they may take tens of seconds
+				}
+				jobs[i].o.Result = race(files[i], t, all)
 			}
 		}()
 	}
